@@ -160,6 +160,14 @@ def run(ctx):
                     ctx.inst("C16.R1", k, ok, d, loc)
 
             total += classify_number_to_text(core, arm["body"], var, emit, key, None)
+            # the digits Display / the formatter produced are the digits that are written: a function of the crate that takes that text
+            # (digit grouping, padding, a clean-up pass) emits something else than the number's own shortest spelling
+            if pn.startswith("blots_core::ast_to_source::") or pn.startswith("blots_core::formatter::"):
+                for x in H.walk(arm["body"]):
+                    if H.kind(x) == "Call" and (x.get("def") or "").startswith("blots_core::") and (core.hir.get(x["def"]) or {}).get("output") == "alloc::string::String":
+                        takes_text = any(H.kind(y) == "Macro" and y.get("name") == "format" or (H.kind(y) == "MethodCall" and y["name"] == "to_string") for a_ in x["args"] for y in H.walk(a_))
+                        if takes_text and any(H.contains_local(a_, var) for a_ in x["args"]):
+                            ctx.inst("C16.R1", key + "#digits-rewritten-by-%s" % H.last(x["def"]), False, "the text made from the number is handed to %s() before it is emitted: what is written is no longer the number's own digits" % H.last(x["def"]), H.loc(x))
     ctx.units["number_to_text_sites"] = total
     # the stringify non-display branch must be the to_string one: `if display_format {display} else {n.to_string()}`
     sf = core.hir_fn("blots_core::values::Value::stringify")
@@ -328,6 +336,17 @@ def run(ctx):
     int_parsers = sorted(c_ for n_ in reach_ if n_.startswith("blots_core::") or n_.startswith("<blots_core") for c_ in cg_.out.get(n_, ()) if c_.endswith("from_str_radix"))
     ctx.inst("C16.R3", "builder#integer-parse-reachable", bool(int_parsers), "integer parsers reachable from the AST builder: %s (hexadecimal / binary literals converted any other way round twice above 2^53)" % (sorted(set(int_parsers)) or "none"), None)
     decimal_literals_are_floats(ctx, "C16.R3", core)
+    # the only characters taken out of a literal's text are the `_` separators: a filter that also drops signs takes the sign of the
+    # exponent with it (`1e-5` read as 1e5)
+    dropped = set()
+    for x in H.walk(num_arm["body"]):
+        if H.kind(x) == "MethodCall" and x["name"] in ("filter", "retain", "trim_matches", "trim_start_matches") and x.get("args"):
+            for y in H.walk(x["args"][0]):
+                if H.kind(y) == "Lit" and y.get("lk") in ("char", "str") and len(str(y.get("v"))) == 1:
+                    dropped.add(str(y["v"]))
+        if H.kind(x) == "MethodCall" and x["name"] in ("replace", "replacen") and len(x.get("args", [])) >= 2 and H.lit(x["args"][1]) is not None and H.lit(x["args"][1])["v"] == "" and H.lit(x["args"][0]) is not None:
+            dropped.add(str(H.lit(x["args"][0])["v"]))
+    ctx.inst("C16.R3", "builder#only-separators-removed", None if not dropped else dropped <= {"_"}, "characters removed from the literal's text wherever they stand: %s" % (sorted(dropped) or "none found"), H.loc(num_arm["body"]))
     # the radix marker is a prefix: looked for anywhere in the text, `0x10b1` contains a binary marker too
     anyw = ["%s(%r) at %s" % (x["name"], H.lit(x["args"][0])["v"], H.loc(x)) for x in H.walk(num_arm["body"]) if H.kind(x) == "MethodCall" and x["name"] in ("split_once", "rsplit_once", "find", "rfind", "contains", "split", "splitn", "match_indices") and x.get("args") and H.lit(x["args"][0]) and str(H.lit(x["args"][0])["v"]).lower() in ("0b", "0x", "b", "x")]
     ctx.inst("C16.R3", "builder#radix-marker-is-a-prefix", not anyw, "radix markers located anywhere in the literal instead of at its start: %s" % (anyw or "none"), H.loc(num_arm["body"]))
